@@ -31,6 +31,7 @@ PROFILES = {
 for _n in (0, 1, 2, 3, 4, 5, 9999):
     PROFILES["dbg%d" % _n] = ("gcc", ["-O0", "-g", "-DVERIF_DEBUG=%d" % _n])
     PROFILES["asan_dbg%d" % _n] = ("clang", PROFILES["asan"][1] + ["-DVERIF_DEBUG=%d" % _n])
+PROFILES["msan_dbg5"] = ("clang", PROFILES["msan"][1] + ["-DVERIF_DEBUG=5"])
 PROFILES["dbgundef"] = ("gcc", ["-O0", "-g", "-DVERIF_DEBUG=-1"])
 # release-style builds: NDEBUG belongs to <assert.h>, not to libast; the gates must not depend on it
 PROFILES["dbg4nd"] = ("gcc", ["-O2", "-g", "-DVERIF_DEBUG=4", "-DNDEBUG"])
@@ -157,7 +158,7 @@ def build_harness(name, profile, sources, exclude=(), wraps=(), cflags=(), inclu
             objs.append(f.result())
     libobjs = [o for s, o in sorted(lib.items()) if s not in exclude]
     exe = os.path.join(outdir, name)
-    if profile == "msan":
+    if profile.startswith("msan"):
         wraps = list(wraps) + [w for w in ("getservbyname", "getprotobyname") if w not in wraps]      # engine/mc.c: results of uninstrumented lookups are initialised
     wrapflags = ["-Wl,--wrap=%s" % w for w in (["exit"] + list(wraps))]
     sanit = [f for f in pf if f.startswith("-fsanitize")]
